@@ -214,6 +214,7 @@ void lcdb_verif_acc(const char *obj, const void *inst, int write) {
 static int g_sched_on = -1;
 static uint64_t g_sched_seed = 0;
 static volatile int g_hold[64];
+static volatile int g_skip[64];     /* arrivals that still pass a held point (hold from the n-th arrival on) */
 static __thread uint64_t t_rs = 0;
 static __thread int t_prio = -1;
 
@@ -223,7 +224,7 @@ void lcdb_verif_sched(unsigned long seed) {
 }
 
 void lcdb_verif_hold(int point, int on) {
-  if (point >= 0 && point < 64) g_hold[point] = on;
+  if (point >= 0 && point < 64) { g_skip[point] = on > 1 ? on - 1 : 0; g_hold[point] = on ? 1 : 0; }
 }
 
 static uint32_t trnd(void) {
@@ -236,7 +237,8 @@ static uint32_t trnd(void) {
 void lcdb_verif_pt(int point) {
   if (point >= 0 && point < 64) {
     int spins = 0;
-    while (g_hold[point] && spins++ < 200000) usleep(50);
+    if (g_hold[point] && g_skip[point] > 0) g_skip[point]--;
+    else while (g_hold[point] && spins++ < 200000) usleep(50);
   }
   if (g_sched_on < 0) {
     const char *e = getenv("LCDB_VERIF_SCHED");
